@@ -65,7 +65,7 @@ func c01NoGuardRejectsFirstObject(r *core.Report) {
 				default:
 					continue
 				}
-				if holdsAtEq && leadsToErrorOnly(g, f, e) {
+				if holdsAtEq && onlyErrorsReachable(g, f, e) {
 					bad = f.Key + ": " + core.ExprStr(be)
 					badAt = be
 				}
@@ -237,8 +237,15 @@ func c06FlagAccessors(r *core.Report) {
 		val := bs.ParamObj(1)
 		okShape := false
 		for _, e := range g.Nodes {
-			if e.Kind == core.KEdge && e.Ast != nil && e.Truth {
-				if id, isId := core.Unparen(e.Ast.(ast.Expr)).(*ast.Ident); isId && val != nil && info.Uses[id] == types.Object(val) {
+			if e.Kind == core.KEdge && e.Ast != nil {
+				// the edge on which the value argument is known true (if value {..} / if !value {..} else {..})
+				isTrueSide := false
+				for _, fc := range e.Facts() {
+					if id, isId := core.Unparen(fc.Expr).(*ast.Ident); isId && fc.Tag == nil && fc.Truth && val != nil && info.Uses[id] == types.Object(val) {
+						isTrueSide = true
+					}
+				}
+				if isTrueSide {
 					// on the true side the bit is or-ed in, on the false side and-not-ed out
 					var setOp, clrOp bool
 					for x := range g.ReachFromIncl(e, nil) {
@@ -371,8 +378,9 @@ func c07BoundsNotComparedWithEachOther(r *core.Report) {
 // of MultiEpoch that can hold an *Epoch (a "last used" pointer, a secondary map, a cached listing) is a second copy: every
 // function that changes the primary map must also update that field (itself or through a same-package callee), otherwise a
 // removed or replaced epoch keeps being served from the copy and queries no longer see a consistent epoch set.
-func c09SingleSourceOfTruth(r *core.Report) {
-	const rule = "C09.R7"
+func c09SingleSourceOfTruth(r *core.Report) { singleSourceOfTruth(r, "C09.R7") }
+
+func singleSourceOfTruth(r *core.Report, rule string) {
 	p := r.Prog
 	anchor := r.Anchor(rule, "main.(*MultiEpoch).GetEpoch")
 	if anchor == nil {
@@ -442,6 +450,38 @@ func c09SingleSourceOfTruth(r *core.Report) {
 			return !found
 		})
 		return found
+	}
+	// state derived from the epoch set: any other field of MultiEpoch that some function fills while it reads the epoch map
+	// (a cached per-epoch table, a listing): it has to follow every change of the map just the same
+	for i := 0; i < st.NumFields(); i++ {
+		fld := st.Field(i)
+		if fld == primary || fld.Embedded() {
+			continue
+		}
+		already := false
+		for _, c := range copies {
+			if c == fld {
+				already = true
+			}
+		}
+		if already {
+			continue
+		}
+		if _, isMutex := fld.Type().Underlying().(*types.Struct); isMutex {
+			continue
+		}
+		for _, f := range p.AllFns {
+			if f.Pkg != anchor.Pkg || f.Body == nil || strings.HasSuffix(p.FileOf(f.Pos()), "_test.go") {
+				continue
+			}
+			if f.Obj != nil && f.Obj.Type().(*types.Signature).Recv() == nil {
+				continue // constructors
+			}
+			if writes(f, fld) && mentionsField(f, primary) {
+				copies = append(copies, fld)
+				break
+			}
+		}
 	}
 	var writers []*core.Func
 	for _, f := range p.AllFns {
@@ -751,11 +791,15 @@ func c19SlotLoopVariableOnlyStepsByOne(r *core.Report) {
 				if !ok || fs.Post == nil || fs.Cond == nil {
 					return true
 				}
-				inc, ok := fs.Post.(*ast.IncDecStmt)
-				if !ok {
-					return true
+				var v types.Object
+				switch ps := fs.Post.(type) {
+				case *ast.IncDecStmt:
+					v = core.ObjOf(info, ps.X)
+				case *ast.AssignStmt:
+					if place, _, ok := addStep(info, ps); ok {
+						v = core.ObjOf(info, place)
+					}
 				}
-				v := core.ObjOf(info, inc.X)
 				if v == nil {
 					return true
 				}
@@ -946,4 +990,17 @@ func c17NoErrorErasure(r *core.Report) {
 		}
 	}
 	r.OK(rule, "range-cache+split-car-fetcher#error-erasure-sites", "", fmt.Sprintf("%d assignments of nil to a fetch error examined", n))
+}
+
+// mentionsField: f's body selects the field fld somewhere.
+func mentionsField(f *core.Func, fld *types.Var) bool {
+	info := f.Pkg.TypesInfo
+	found := false
+	ast.Inspect(f.Body, func(m ast.Node) bool {
+		if sel, ok := m.(*ast.SelectorExpr); ok && info.Uses[sel.Sel] == types.Object(fld) {
+			found = true
+		}
+		return !found
+	})
+	return found
 }
